@@ -77,7 +77,7 @@ def thresh_model(trains, edges):
     return math.sqrt(float(ms)) / O.SCALE, min(pool) / float(O.SCALE)
 
 
-def evaluate(r, trains, edges, menu, be, rank=(), auto_only=False):
+def evaluate(r, trains, edges, menu, be, rank=(), auto_only=False, coinc_only=False):
     import pyspike as spk
     from pyspike.isi_lengths import default_thresh
     sts = [spk.SpikeTrain(t, edges) for t in trains]
@@ -103,7 +103,8 @@ def evaluate(r, trains, edges, menu, be, rank=(), auto_only=False):
         viol("default_thresh", {}, te_, th, "automatic threshold is not the root mean square of "
              "the pooled inter-spike-interval lengths")
         return
-    for name, kw in (BASE if not auto_only else [b for b in BASE if b[0] in ("sync", "order")]):
+    for name, kw in (BASE if not (auto_only or coinc_only) else
+                     [b for b in BASE if b[0] in ("sync", "order")]):
         try:
             chain = []
             om = observe(name, sts, kw)           # MRTS omitted
@@ -174,7 +175,7 @@ def evaluate(r, trains, edges, menu, be, rank=(), auto_only=False):
         r.outcomes.add((name, round(om["v"], 9), round(oa["v"], 9)))
     # ---- MRTS given as an integer number (Python int, numpy integer, float32) means that
     # number: 0 is the non-adaptive measure, 1 and 2 (= 4u, 8u) equal 1.0 and 2.0
-    if not auto_only:
+    if not auto_only and not coinc_only and (edges[1] - edges[0]) <= 3 * U + 1e-9:  # small clocks
         from mc.measures import obs_close
         tforms = [
             ("isi_profile", lambda m: _lst(spk.isi_profile(*targs, MRTS=m).y)),
@@ -239,7 +240,8 @@ def evaluate(r, trains, edges, menu, be, rank=(), auto_only=False):
 def check_state(r, k, masks, task):
     trains, edges = pairs.trains_edges(k, masks)
     ns = pairs.nspikes(masks)
-    evaluate(r, trains, edges, task["menu"], task["backend"], (k, ns))
+    evaluate(r, trains, edges, task["menu"], task["backend"], (k, ns),
+             coinc_only=(task["regime"][0] == "bounded"))
     if r.states % 997 == 1:
         r.sample({"trains": trains, "edges": edges, "MRTS_menu": task["menu"]})
 
